@@ -236,23 +236,25 @@ theorem C15_index_rank1_rejects (v : Vec) (pairs : List (Int × Int)) (periodic 
     (match indexDisplacement K (.v v) pairs periodic box own with | .err .indexError => True | _ => False) := by
   simp [indexDisplacement]
 
-/-- `repeat_box_coord` refuses exactly the negative amounts (`ValueError`). -/
+/-- `repeat_box_coord` refuses exactly the negative amounts on a non-empty coordinate array (`ValueError`). -/
 theorem C15_repeat_box_negative_rejects (xs : List Vec) (b : Box) (a : Int) :
-    (a < 0 → repeatBoxCoordE K xs b a = .error .valueError) ∧
-    (0 ≤ a → ∃ r, repeatBoxCoordE K xs b a = .ok r ∧ r.1 = repeatBoxCoord K xs b a) := by
+    (a < 0 → xs ≠ [] → repeatBoxCoordE K xs b a = .error .valueError) ∧
+    (0 ≤ a ∨ xs = [] → ∃ r, repeatBoxCoordE K xs b a = .ok r ∧ r.1 = repeatBoxCoord K xs b a) := by
   constructor
-  · intro h
+  · intro h hx
     have : (1 + 2 * a) ^ 3 < 0 := by
       have h1 : 1 + 2 * a < 0 := by omega
       have : (1 + 2 * a) ^ 3 = (1 + 2 * a) * ((1 + 2 * a) * (1 + 2 * a)) := by ring
       rw [this]; exact mul_neg_of_neg_of_pos h1 (mul_pos_of_neg_of_neg h1 h1)
-    simp [repeatBoxCoordE, this]
+    simp [repeatBoxCoordE, this, hx]
   · intro h
-    have : ¬ (1 + 2 * a) ^ 3 < 0 := by
-      have : (0 : Int) ≤ (1 + 2 * a) ^ 3 := by positivity
-      omega
+    have : ¬ ((1 + 2 * a) ^ 3 < 0 ∧ xs ≠ []) := by
+      rcases h with h | h
+      · have : (0 : Int) ≤ (1 + 2 * a) ^ 3 := by positivity
+        omega
+      · simp [h]
     exact ⟨(repeatBoxCoord K xs b a, (cubeShifts K a).flatMap fun _ => List.range xs.length),
-      by simp [repeatBoxCoordE, this], rfl⟩
+      by simp only [repeatBoxCoordE, this, if_false], rfl⟩
 
 /-! ## Periodic measurements are functions of the atoms modulo the lattice -/
 
